@@ -48,7 +48,7 @@ func (e *Engine) Summary(fn *ssa.Function) *Summary {
 	e.sumBusy[fn] = true
 	defer delete(e.sumBusy, fn)
 
-	s := &Summary{UpperLen: map[int]map[int]bool{}, LenEq: map[int]Lin{}, MinLen: map[int]int64{}}
+	s := &Summary{UpperLen: map[int]map[int]bool{}, LenEq: map[int]Lin{}, MinLen: map[int]int64{}, NonNeg: map[int]bool{}}
 	res := fn.Signature.Results()
 	n := res.Len()
 	hasErr := n > 0 && kit.IsErrorType(res.At(n-1).Type())
@@ -77,9 +77,19 @@ func (e *Engine) Summary(fn *ssa.Function) *Summary {
 			}
 		}
 		idx := kit.InstrIndex(r)
+		// phis are resolved by what is known at this return (the success return of an expanded helper)
+		saveAt := e.at
+		e.at = r.Block()
+		defer func() { e.at = saveAt }()
 		for i := 0; i < n; i++ {
 			rv := kit.Res(r, i)
 			if _, _, isInt := intInfo(res.At(i).Type()); isInt {
+				nn, _ := e.Prove(e.Lin(rv), r.Block(), idx)
+				if first {
+					s.NonNeg[i] = nn
+				} else if !nn {
+					s.NonNeg[i] = false
+				}
 				if first {
 					s.UpperLen[i] = map[int]bool{}
 					for _, j := range sliceParams {
@@ -137,7 +147,7 @@ func (e *Engine) Summary(fn *ssa.Function) *Summary {
 	})
 	if first {
 		// no normal return
-		s = &Summary{UpperLen: map[int]map[int]bool{}, LenEq: map[int]Lin{}, MinLen: map[int]int64{}}
+		s = &Summary{UpperLen: map[int]map[int]bool{}, LenEq: map[int]Lin{}, MinLen: map[int]int64{}, NonNeg: map[int]bool{}}
 	}
 	e.sums[fn] = s
 	return s
@@ -177,7 +187,7 @@ func (e *Engine) callSummary(call *ssa.Call) (*Summary, func(int) ssa.Value) {
 			return nil, nil
 		}
 		if acc == nil {
-			acc = &Summary{UpperLen: map[int]map[int]bool{}, LenEq: map[int]Lin{}, MinLen: map[int]int64{}}
+			acc = &Summary{UpperLen: map[int]map[int]bool{}, LenEq: map[int]Lin{}, MinLen: map[int]int64{}, NonNeg: map[int]bool{}}
 			for i, m := range s.UpperLen {
 				acc.UpperLen[i] = map[int]bool{}
 				for j := range m {
@@ -192,7 +202,15 @@ func (e *Engine) callSummary(call *ssa.Call) (*Summary, func(int) ssa.Value) {
 			for i, m := range s.MinLen {
 				acc.MinLen[i] = m
 			}
+			for i, m := range s.NonNeg {
+				acc.NonNeg[i] = m
+			}
 			continue
+		}
+		for i, m := range acc.NonNeg {
+			if m && !s.NonNeg[i] {
+				acc.NonNeg[i] = false
+			}
 		}
 		for i, m := range acc.UpperLen {
 			for j := range m {
